@@ -12,30 +12,43 @@ ENTRY = dict(
         facts=["value_error_sites"],
         harness="c03",
         level_text="Unbounded theorems (any number of qubits, any instruction list, any number and interleaving of markers; induction over the "
-                   "instruction list) about the executable model of _circuit_structure_mapping/_transform_cut_wires: the result has the original "
-                   "qubit objects in order, each preceded by one fresh qubit per marker on it (n + #markers qubits); instruction k of the result "
-                   "is instruction k of the input relocated to the current positions (markers become the factory op on two adjacent positions, "
-                   "everything else keeps operation and classical bits); in the symbolic wire-history (Herbrand) semantics with Move = "
-                   "reset-and-swap the wire of every original qubit ends at the position of the original Qubit object, all other positions end "
-                   "in |0>, all classical bits carry the same measurement terms, and each inserted Move hits a wire that is still |0>; "
-                   "expand_observables puts qubit q's letter exactly on that final position. Closed under the global context. The model is "
-                   "compared with cut_wires and _transform_cuts_to_moves on >14000 generated cases per quick run (all programs up to length 5 "
-                   "over a 5-letter alphabet, every marker sequence of length <= 4 on 1..4 qubits, random programs).",
+                   "instruction list; only hypothesis: qubit indices in range and markers on one qubit) about the executable model of "
+                   "_circuit_structure_mapping/_transform_cut_wires: the result has the original qubit objects in order, each preceded by one "
+                   "fresh qubit per marker on it (n + #markers qubits); instruction k of the result is instruction k of the input relocated to "
+                   "the current positions (markers become the factory op on two adjacent positions, everything else keeps operation and "
+                   "classical bits); in the symbolic wire-history (Herbrand) semantics with every inserted operation executed as Move = "
+                   "reset-and-swap - for _transform_cuts_to_moves (c03_semantics) and for cut_wires' placeholder form with any factory "
+                   "(c03_cut_wires_as_moves, c03_semantics_cut_wires) - the wire of every original qubit ends at the position of the original "
+                   "Qubit object, all other positions end in |0>, all classical bits carry the same measurement terms, and each inserted Move "
+                   "hits a wire that is still |0>; expand_observables puts qubit q's letter exactly on that final position. Closed under the "
+                   "global context. The model is compared with cut_wires and _transform_cuts_to_moves on ~14000 generated cases per quick run. "
+                   "The LAST sentence of the property (cutting the Moves and reconstructing with exact weights returns the original values) is "
+                   "NOT proved here: it is tested end-to-end on 26 (quick) / 82 (thorough) small circuits per run "
+                   "(cut_wires -> expand_observables -> partition_problem -> generate(inf) -> ExactSampler -> reconstruct, judged against an "
+                   "independent simulation of the uncut circuit); its proof content is C01 (estimator) + C02 (the Move basis).",
         level_note=STD_NOTE + "No axioms. 'Same expectation value' is proved as equality of symbolic wire terms (modelling assumption M1: every "
-                   "compositional circuit semantics factors through the wire-history denotation); it is additionally tested, not proved, by an "
-                   "independent numpy branch simulator on generated cases. The last sentence of the property (cutting the Moves and "
-                   "reconstructing) is C01/C02's business and not covered here.",
+                   "compositional circuit semantics factors through the wire-history denotation); M1 is monitored, not proved: the contract "
+                   "judge_accepts_clean_case runs an independent numpy branch simulator (all 15 two-qubit Paulis / all weight-1 Paulis / random "
+                   "ones with phases, per classical outcome) on every generated case whose recorded output is the modelled one and fails the run "
+                   "if it disagrees. c03_registers is an identity of the model (registers are only compared, nothing is proved about them).",
         assumptions=[
-            "Model/CutWires.v is a hand-written model of _circuit_structure_mapping and _transform_cut_wires with the REPAIRED marker count "
-            "(number of markers per qubit, defect F1) and with classical bits of relocated instructions kept (defect F8: the unrepaired code "
-            "drops them); tied to the source by the C03 correspondence (vm_compute of the model on the inputs the implementation ran on)",
+            "Model/CutWires.v is a hand-written model of _circuit_structure_mapping and _transform_cut_wires (marker count = number of "
+            "markers per qubit; classical bits of relocated instructions kept, in the instruction's own order); tied to the source by the "
+            "C03 correspondence (vm_compute of the model on the inputs the implementation ran on)",
             "Qubit/Clbit objects are modelled as identity tags (original qubit q = q, k-th fresh Qubit() = n + k); registers are carried "
-            "through unchanged in the model and compared with the implementation's output registers",
+            "through unchanged in the model and compared with the implementation's output registers (names, sizes incl. 0, members, order)",
             "M1 Herbrand adequacy (DESIGN 3.1/5): equal wire terms on observed wires and classical bits imply equal expectation values and "
             "outcome statistics; Move a b is 'b receives a, a becomes |0>', justified only when b is unentangled - which c03_move_targets_fresh "
             "proves for every inserted Move",
-            "instructions with conditions / control flow are outside the circuit representation (Common/Circ.v) and are not generated",
+            "operations are opaque: a condition (c_if on a clbit) is folded into the interned gate id, so a dropped/changed condition is a "
+            "model mismatch and a judge violation ('instruction not kept'), but conditional and multi-clbit opaque instructions are not "
+            "simulated (structure + wire tracking only); control-flow blocks, symbolic Parameters, gate labels are not generated",
             "the factory operation of cut_wires is represented as a Qpd2 placeholder (basis handle of QPDBasis.from_instruction(Move()), "
             "basis_id None, label 'cut_move'); that this basis decomposes Move is C02's statement",
+            "judge treats any exception raised by cut_wires/_transform_cuts_to_moves/expand_observables on a generated circuit as a violation: "
+            "every generated circuit is inside the property's quantifier (extended to 0 qubits and up to 5 markers), for which the property "
+            "demands a result",
+            "observation (outside the property, not checked): the result is built from an empty QuantumCircuit(), so circuit-level attributes "
+            "(name, metadata, global_phase) of the input are not carried over; expectation values do not depend on them",
         ],
     )
